@@ -842,7 +842,7 @@ void case_maps(uint64_t index, vh::Rng& rng) {
 void case_flexbig(uint64_t index, vh::Rng& rng) {
     const uint64_t T = 0xffffff;
     const unsigned pattern = static_cast<unsigned>(index % 6);
-    static const char* const PN[] = {"ascending i", "ascending 2i", "window-shuffled", "descending (never switches)", "3i+3 (density just too low)", "3i (density just enough)"};
+    static const char* const PN[] = {"ascending i", "ascending 2i", "window-shuffled", "descending (switch only by a larger id in the tail)", "3i+3 (density just too low)", "3i (density just enough)"};
     uint64_t N, span;
     const uint64_t salt = rng.next();
     const uint64_t W = 1ULL << 18;
